@@ -118,6 +118,15 @@ def big_files_via_cli(chk, exe, wd, huge_pool=False):
             r.append({'key': sw[i]['name'] + ' :: outcome', 'val': {'ok': p1.returncode == 0, 'out': hashlib.sha1(p1.stdout).hexdigest()}, 'cfg': '`fml execute FILE`'})
             p2 = subprocess.run([exe, 'execute'], stdin=open(bc, 'rb'), stdout=subprocess.PIPE, stderr=subprocess.PIPE, timeout=120)
             r.append({'key': sw[i]['name'] + ' :: outcome', 'val': {'ok': p2.returncode == 0, 'out': hashlib.sha1(p2.stdout).hexdigest()}, 'cfg': '`fml execute` < stdin'})
+            if i % 40 == 11:
+                # other ways of naming the file: a symbolic link, a pipe (process substitution), /dev/stdin
+                ln = os.path.join(wd, 'sw%d.link' % i)
+                if not os.path.exists(ln):
+                    os.symlink(bc, ln)
+                for cfgname, cmd in (('`fml execute SYMLINK`', '"%s" execute "%s"' % (exe, ln)), ('`fml execute <(cat FILE)` (a pipe)', '"%s" execute <(cat "%s")' % (exe, bc)),
+                                     ('`cat FILE | fml execute /dev/stdin`', 'cat "%s" | "%s" execute /dev/stdin' % (bc, exe))):
+                    pr = subprocess.run(['bash', '-c', cmd], cwd=wd, stdout=subprocess.PIPE, stderr=subprocess.PIPE, timeout=60)
+                    r.append({'key': sw[i]['name'] + ' :: outcome', 'val': {'ok': pr.returncode == 0, 'out': hashlib.sha1(pr.stdout).hexdigest()}, 'cfg': cfgname})
             return r
         with ThreadPoolExecutor(max_workers=12) as ex:
             for r in ex.map(one, range(len(sw))):
@@ -249,7 +258,7 @@ def c02(tier):
                 'and explores every CFG path x stack depth of every method (FMLVerifier). distinct_nontrivial = distinct compiled methods explored.')
     exe = build('debug')
     wd = scratch('c02')
-    progs = pool.corpus() + pool.over_limit_programs() + pool.sandwich_programs() + pool.construct_family(pairs=(tier == 'thorough'), limit=tier_sizes(tier, 900, None)) + \
+    progs = pool.corpus() + pool.over_limit_programs() + pool.sandwich_programs() + pool.let_slot_programs() + pool.construct_family(pairs=(tier == 'thorough'), limit=tier_sizes(tier, 900, None)) + \
         pool.random_programs(tier_sizes(tier, 150, 4000), base_seed=seed() * 104729 + 5, fault_rate=0.15)
     outs = compile_pool(exe, progs, wd, ['ast', 'prog'], 'c02')
     recs = []
